@@ -228,14 +228,25 @@ class Impl:
             buf.seek(0)
             sd = torch.load(buf)
             new = self._build(seed=7)
-            new.load_state_dict(sd)
+            # the checkpoint goes into the fresh layer directly, or through the module that contains it (flow.load_state_dict)
+            self.nreload = getattr(self, 'nreload', 0) + 1
+            via = self.case.get('reload_via', 'direct')
+            if via == 'container' or (via == 'alternate' and self.nreload % 2 == 1):
+                outer = torch.nn.ModuleList([torch.nn.ModuleList([new])])
+                outer.load_state_dict({'0.0.' + kk: vv for kk, vv in sd.items()})
+            else:
+                new.load_state_dict(sd)
             self.m = new
         else:
             b = op['b']
             x = torch.tensor(b['x'], dtype=torch.float64).reshape(b['shape'])
             x0 = x.clone()
+            self.ncall = getattr(self, 'ncall', 0) + 1
+            ag = self.case.get('autograd', 'on')
+            grad_on = ag == 'on' or (ag == 'alternate' and self.ncall % 2 == 0)
             try:
-                out, ld = self.m.forward(x) if k == 'fwd' else self.m.inverse(x)
+                with torch.set_grad_enabled(grad_on):      # a warm-up / evaluation pass is often run inside torch.no_grad()
+                    out, ld = self.m.forward(x) if k == 'fwd' else self.m.inverse(x)
                 res = {'err': '', 'out': out.detach().double().reshape(-1).tolist(), 'ld': ld.detach().double().reshape(-1).tolist(),
                        'out_shape': list(out.shape)}
             except Exception as e:   # noqa
@@ -363,9 +374,11 @@ def exhaustive_cases(L, L4=None):
         fx = FIXED[dims]
         alphabet = [{'k': 'train'}, {'k': 'eval'}, {'k': 'reload'}, {'k': 'fwd', 'b': fx['b1']}, {'k': 'fwd', 'b': fx['b2']},
                     {'k': 'inv', 'b': fx['b3']}]
-        for word in itertools.product(alphabet, repeat=(L4 if (dims == 4 and L4) else L)):
+        for nw, word in enumerate(itertools.product(alphabet, repeat=(L4 if (dims == 4 and L4) else L))):
             case = base_case(layer, dims, 2, momentum=0.25)
             case['hist'] = list(word)
+            case['autograd'] = ('on', 'off', 'alternate')[nw % 3]
+            case['reload_via'] = ('direct', 'container')[(nw // 3) % 2]
             case['regime'] = 'fixed'
             # b1 (B=3) and b2 (B=2) are dyadic with column sums divisible by B: statistics exact in binary64
             case['exact_mean'] = case['exact_var'] = True
@@ -413,6 +426,8 @@ def random_case(rng):
                 b = float_batch(rng, (rng.choice([2, 3, 4, 5, 7, 8]), F))
             hist.append({'k': k, 'b': b})
     case['hist'] = hist
+    case['autograd'] = rng.choice(['on', 'off', 'alternate'])
+    case['reload_via'] = rng.choice(['direct', 'container', 'alternate'])
     case['regime'] = regime + ('+malformed' if malformed else '')
     # exactness of the BatchNorm statistics: integer data, column sums multiples of B (mean), and B-1 in {1,2} (variance;
     # torch's Welford reduction is inexact from B = 4 on).  The B=1 / constant / Gaussian batches of the malformed stream
